@@ -235,8 +235,15 @@ macro_rules! fwd {
 impl FileSystem for SimFS {
     fn read_dir(&self, path: &str) -> VfsResult<Box<dyn Iterator<Item = String> + Send>> {
         let r = fwd!(self, "read_dir", path, None, false, self.inner.read_dir(path));
-        let it = r?;
-        let mut v: Vec<String> = it.collect();
+        let mut it = r?;
+        let _ = it.size_hint();
+        let mut v: Vec<String> = it.by_ref().collect();
+        // the backend's iterator after its end: asking again and asking for the size hint are legal
+        // (a panic here surfaces as a panic of the calling operation); further items are ignored
+        let _ = it.size_hint();
+        let _ = it.next();
+        let _ = it.size_hint();
+        drop(it);
         v.sort();
         if self.ctl.permute.load(Ordering::Relaxed) && v.len() > 1 {
             let seed = self.ctl.order_seed.load(Ordering::Relaxed);
@@ -353,6 +360,27 @@ impl Read for SimRead {
         self.rec("h.read", r.is_ok());
         r
     }
+    /// forwarded (one fault point, one recorded call): the wrapped handle's own implementation runs
+    fn read_vectored(&mut self, bufs: &mut [io::IoSliceMut<'_>]) -> io::Result<usize> {
+        self.ctl.yield_sched("h.read_vectored");
+        if let Some(kind) = self.ctl.fault_check(self.node, true).map(|k| if k == io::ErrorKind::NotFound { io::ErrorKind::Other } else { k }) {
+            self.rec("h.read_vectored", false);
+            return Err(injected(kind));
+        }
+        let r = self.inner.read_vectored(bufs);
+        self.rec("h.read_vectored", r.is_ok());
+        r
+    }
+    fn read_exact(&mut self, buf: &mut [u8]) -> io::Result<()> {
+        self.ctl.yield_sched("h.read_exact");
+        if let Some(kind) = self.ctl.fault_check(self.node, true).map(|k| if k == io::ErrorKind::NotFound { io::ErrorKind::Other } else { k }) {
+            self.rec("h.read_exact", false);
+            return Err(injected(kind));
+        }
+        let r = self.inner.read_exact(buf);
+        self.rec("h.read_exact", r.is_ok());
+        r
+    }
     /// forwarded so that a specialised `read_to_end` of the wrapped handle is the code that runs
     fn read_to_end(&mut self, buf: &mut Vec<u8>) -> io::Result<usize> {
         self.ctl.yield_sched("h.read_to_end");
@@ -427,6 +455,16 @@ impl Write for SimWrite {
         }
         let r = self.inner.as_mut().unwrap().write(&buf[..n]);
         self.rec("h.write", r.is_ok());
+        r
+    }
+    fn write_vectored(&mut self, bufs: &[io::IoSlice<'_>]) -> io::Result<usize> {
+        self.ctl.yield_sched("h.write_vectored");
+        if let Some(kind) = self.ctl.fault_check(self.node, true).map(|k| if k == io::ErrorKind::NotFound { io::ErrorKind::Other } else { k }) {
+            self.rec("h.write_vectored", false);
+            return Err(injected(kind));
+        }
+        let r = self.inner.as_mut().unwrap().write_vectored(bufs);
+        self.rec("h.write_vectored", r.is_ok());
         r
     }
     fn flush(&mut self) -> io::Result<()> {
